@@ -4,8 +4,10 @@ Cases are random dataset stacks built from the REAL base classes (a KDDataset ro
 torch dataset, 0-3 layers of KDWrapper subclasses / KDSubset on top) whose item loaders return symbolic tokens
 ("x@3", "w2.x(x@3)") and record sample-specific entries into the ctx, optionally with wrappers that declare jointly
 loaded items (`fused_operations`) and implement the joint loader; a mode string over the available items with
-`index`, `ctx.<key>`, duplicates and permutations around the fused groups; and a history of accesses (int, negative,
-slice, list) on ONE ModeWrapper object followed by iteration and len.  The real ModeWrapper is run; the Coq model
+`index`, `ctx.<key>` (keys from a rich alphabet: related names recorded side by side), duplicates and permutations
+around the fused groups; and a history of steps on ONE ModeWrapper object -- indexing (int, negative, slice, list), len
+and ITERATOR operations as first-class steps (it_k = iter(mw), next(it_k), for-loop over it_k, several iterators alive
+at once) -- followed by a full iteration and len.  The real ModeWrapper is run; the Coq model
 (coq/C01/Model.v) and spec (Spec.v) are evaluated on the same stack; the independent Python oracle below states the
 property with plain list/dict operations (reference sequence semantics = indexing `list(range(n))`)."""
 import itertools
@@ -14,14 +16,15 @@ from .common import C, Nat, Opt, Raw, Rec, Str, coq
 
 ID = "C01"
 COQ_FILES = ["C01/Model.v", "C01/Spec.v", "C01/Check.v", "C01/Proofs.v", "C01/Occ.v", "C01/PlanState.v", "C01/PlanEq.v",
-             "C01/Bounds.v", "C01/Property.v"]
+             "C01/Bounds.v", "C01/Iter.v", "C01/Property.v"]
 COQ_PRELUDE = ("From Coq Require Import ZArith List Bool String.\nImport ListNotations.\n"
                "From KD Require Import C01.Model C01.Spec C01.Check.\nOpen Scope Z_scope.\n")
 COQ_CHECK = "check"
 COQ_CASE_TYPE = "case_t"
 SHARD = 100
 TRUSTED = [
-    "hand-written model coq/C01/Model.v of ModeWrapper.__init__/__getitem__/__iter__/__len__, the static helpers "
+    "hand-written model coq/C01/Model.v of ModeWrapper.__init__/__getitem__/__iter__ (generator frames as iterator objects "
+    "with a position of their own: it_next / it_rest / run_ops)/__len__, the static helpers "
     "has_item/add_item/get_item_index/get_item/set_item and TorchWrapper.getitem_*; tied to KD_REPO by this run's "
     "correspondence evaluation (fused plan = zip(fused_items, fused_to_idxs), propagate_ctx, every returned sample, "
     "the loader calls the stack received, constructor exceptions)",
@@ -32,8 +35,9 @@ TRUSTED = [
     "a loader is modelled as a function (item, index, ctx) -> (value, ctx): Python loaders mutate the dict they are "
     "handed; theorem ctx_fresh assumes they cannot replace it (writes_within)",
     "Python semantics cited: str.split(' '), list.index, range(n)[slice] (PySlice_AdjustIndices, proved equal to the "
-    "language reference's description in slice_indices_are_python), dict as ctx, isinstance(batch, (list, tuple)); "
-    "exercised against CPython on every case",
+    "language reference's description in slice_indices_are_python), dict as ctx, isinstance(batch, (list, tuple)), "
+    "generator objects (a generator function call creates a new frame; next() resumes it; an exception leaving the "
+    "frame or its end finishes it for good; iter(generator) is the generator); exercised against CPython on every case",
     "harness/c01.py: stack builder with token loaders, depth-0 call log and call stamps, canonicalisation of samples; "
     "Check.v (tab_load: table-driven loaders incl. the call-stamp convention) is test scaffolding, not part of the proofs",
 ]
@@ -54,6 +58,11 @@ ASSUMPTIONS = [
     "loaders that raise their own exception (after their ctx writes): the access ends with that exception and the "
     "NEXT access is compared with model and spec as usual (nothing of the aborted sample survives); the aborted access "
     "itself is judged by the Python oracle only (loaders of the Coq model are total functions)",
+    "ctx keys: any string without a space (what str.split(' ') leaves in one item) and without a double quote "
+    "(rendering); the key '#' is reserved for the harness's call stamps",
+    "iterator steps: iterators are addressed by small numbers (a name re-used by a later iter() drops the earlier "
+    "iterator); next() / for-loop on a name never created behaves like a finished iterator (harness convention, "
+    "model: no_its); a for-loop is cut after len+3 samples (runaway guard)",
     "ModeWrapper.__getattr__ delegation (marker attributes defined and shadowed at random layers), root_dataset / "
     "all_wrappers / has_wrapper(_type) / get_wrappers_of_type / collators / dispose / context manager through the "
     "ModeWrapper are checked by the Python oracle here and modelled in Coq under C02 (AttrModel.AMode)",
@@ -74,10 +83,15 @@ RULE = ("random stacks: root of size 0-6 with 2-5 token items (KDDataset or Torc
         "subclasses overriding/adding items with 0-2 ctx writes each incl. index-dependent keys, KDSubset with repeats), "
         "0-2 fused groups of 1-3 ops (occasionally containing 'index', unimplemented, duplicated or declared below the "
         "outermost layer); modes of 1-7 items with index / ctx.* / duplicates / permutations around the groups, a few "
-        "unavailable or empty items; 40% of the stacks stamp every loader call with a per-sample call counter kept in the ctx "
+        "unavailable or empty items; ctx keys per case from a family of related names (a base name -- one-letter keys, keys "
+        "starting with c / t / x / '.', 'ctx', 'ctx.ctx', two_random_crop, transform_choice, KDSolarize.threshold, item names, "
+        "'index' -- with its proper suffixes / prefixes / dotted parts / doubled letters / 'ctx.'-prefixed forms, recorded "
+        "side by side with values naming the exact key), index-dependent keys requested too; 40% of the stacks stamp every loader call with a per-sample call counter kept in the ctx "
         "(makes visible which load was delivered and that group members come from one joint load); histories of 1-6 accesses int / negative / slice(start,stop,step incl. None, "
         "out-of-range, negative, 0) / list, 8% out-of-range ints (below -len, at/above len, +-1e20, also inside lists), 10% "
-        "numpy ints, then iteration and len; return_ctx on/off; 0-3 static-helper and 0-2 TorchWrapper probes; 12% of the "
+        "numpy ints; in 40% woven with an iterator episode (1-3 iterators alive at once: iter / next / for-loop over the "
+        "rest / len, zip(mw, mw), nested loops, peek-then-list, re-created names, next after exhaustion; plus 57 directed "
+        "episodes), then iteration and len; return_ctx on/off; 0-3 static-helper and 0-2 TorchWrapper probes; 12% of the "
         "stacks with 1-2 loaders raising at one index after their ctx writes; marker attributes defined at random layers; 7% "
         "(plus 120 directed) with a real DataLoader (batch sizes 1-5, drop_last, over KDSubset / fused wrappers, with/without "
         "ctx) and the static helpers on its batches; directed: whitespace variants of the mode string (double / leading / "
@@ -86,6 +100,45 @@ RULE = ("random stacks: root of size 0-6 with 2-5 token items (KDDataset or Torc
 
 POOL = ["x", "class", "semseg", "y", "z"]
 KEYS = ["k", "m", "q"]
+# ctx keys are arbitrary strings without a space.  Base names: one-letter keys, keys starting with every letter of the
+# item prefix "ctx." and with the dot, keys the library really records (KDTwoRandomCrop: two_random_crop, KDTransformChoice:
+# transform_choice, dotted "<Transform>.<param>" keys), keys equal to item names / to "index" / to "ctx" itself
+KEY_BASES = ["k", "m", "q", "c", "t", "x", ".", "xx", "tag", "ctx", "ctx.ctx", "crop", "two_random_crop", "transform_choice",
+             "KDSolarize.threshold", "x_og", "og", ".foo", "class", "index", "view0", "message", "t.x", "cxt", "..", "x."]
+
+
+def key_family(base):
+    """names related to `base` the way a wrong key computation relates them: proper suffixes and prefixes (a key that
+    another key truncates into), the dotted parts, doubled first / last letters, the name with the item prefix or a dot
+    in front / behind.  A lookup that strips, splits or slices the wrong amount then finds ANOTHER recorded key."""
+    fam = [base]
+    for i in range(1, min(len(base), 5) + 1):
+        fam += [base[i:], base[:-i]]
+    fam += [q for q in base.split(".")] + [base.split(".", 1)[-1], base.rsplit(".", 1)[0]]
+    fam += [base + base[-1:], base[:1] + base, "ctx." + base, "." + base, base + ".", "ctx" + base, base + "ctx."]
+    out = []
+    for k in fam:
+        if k not in out and " " not in k and '"' not in k and k != "#":
+            out.append(k)
+    return out
+
+
+def gen_key_pool(rng):
+    """the 3-6 keys the loaders of one case record under: a base name with members of its family (so that truncated /
+    extended names are recorded too, with other values), plus unrelated ones"""
+    r = rng.random()
+    if r < 0.25:
+        return list(KEYS)
+    base = rng.choice(KEY_BASES)
+    fam = [k for k in key_family(base) if k != base]
+    pool = [base] + rng.sample(fam, min(len(fam), rng.choice([1, 2, 2, 3])))
+    if rng.random() < 0.5:
+        b2 = rng.choice(KEY_BASES)
+        pool += [b2] + rng.sample(key_family(b2), 1)
+    pool += rng.sample(KEYS, rng.choice([0, 1, 1]))
+    if rng.random() < 0.9:
+        pool = [k for k in pool if k != ""] or [base]      # the empty key (item "ctx.") only now and then
+    return list(dict.fromkeys(pool))
 
 
 # ---------------------------------------------------------------------------
@@ -172,8 +225,10 @@ def wkey(key, per, idx):
     return f"{key}.{idx}" if per else key
 
 
-def wval(key, level, name, idx):
-    return f"{key}<{level}.{name}.{idx}"
+def wval(key, level, name, idx, per=False):
+    """what a loader records: names the EXACT key it is recorded under (so that a lookup under a truncated / extended /
+    neighbouring key that happens to exist is seen to deliver another key's value)"""
+    return f"{wkey(key, per, idx)}<{level}.{name}.{idx}"
 
 
 class LoaderBoom(Exception):
@@ -192,7 +247,7 @@ def exp_load(case, level, name, idx, writes, boom=False):
         if name not in items:
             raise LookupError(name)
         for key, per in items[name]:
-            writes.append((wkey(key, per, idx), wval(key, 0, name, idx)))
+            writes.append((wkey(key, per, idx), wval(key, 0, name, idx, per)))
         if boom and raises_at(case, 0, name, idx):
             raise LoaderBoom()
         return f"{name}@{idx}"
@@ -205,7 +260,7 @@ def exp_load(case, level, name, idx, writes, boom=False):
         else:
             val = f"w{level}.{name}@{idx}"
         for key, per in L["impl"][name]:
-            writes.append((wkey(key, per, idx), wval(key, level, name, idx)))
+            writes.append((wkey(key, per, idx), wval(key, level, name, idx, per)))
         if boom and raises_at(case, level, name, idx):
             raise LoaderBoom()
         return val
@@ -386,7 +441,7 @@ def _mk_loader(level, name, writes, inner_has, st, boom_at=()):
             val = f"w{level}.{name}@{idx}"
         if ctx is not None:
             for key, per in writes:
-                ctx[wkey(key, per, idx)] = wval(key, level, name, idx)
+                ctx[wkey(key, per, idx)] = wval(key, level, name, idx, per)
         if idx in boom_at:
             raise LoaderBoom()
         return val
@@ -565,15 +620,50 @@ def run_impl(case):
                    for nm, ix in zip(mw.fused_items, mw.fused_to_idxs)]
     obs["prop"] = bool(mw.propagate_ctx)
     hist = []
+    live = {}          # iterator objects of this history: id -> what iter(mw) returned
     for acc in case["hist"]:
         st["log"] = []
         st["depth"] = 0
         o = {}
         try:
-            r = mw[_idx_of(acc)]
-            o["kind"] = 0
-            o["many"] = isinstance(r, list)
-            o["res"] = [enc(s) for s in r] if isinstance(r, list) else [enc(r)]
+            k = acc["k"]
+            if k == "iter":
+                live[acc["id"]] = iter(mw)
+                o["kind"] = 0
+                o["many"] = False
+                o["res"] = []
+            elif k == "len":
+                o["len"] = len(mw)
+                o["kind"] = 0
+                o["many"] = False
+                o["res"] = []
+            elif k == "next":
+                o["many"] = False
+                o["res"] = []
+                it_ = live.get(acc["id"])
+                if it_ is None:
+                    raise StopIteration     # an id no iterator was created for: like an exhausted one
+                o["res"] = [enc(next(it_))]
+                o["kind"] = 0
+            elif k == "rest":
+                # `for s in it` / list(it) on a possibly partially consumed iterator (calls iter(it) first, as both do);
+                # the samples yielded before an exception are kept
+                o["many"] = True
+                o["res"] = []
+                it_ = live.get(acc["id"])
+                if it_ is not None:
+                    for cnt, smp in enumerate(iter(it_)):
+                        o["res"].append(enc(smp))
+                        if cnt >= n + 2:
+                            break
+                o["kind"] = 0
+            else:
+                r = mw[_idx_of(acc)]
+                o["kind"] = 0
+                o["many"] = isinstance(r, list)
+                o["res"] = [enc(s) for s in r] if isinstance(r, list) else [enc(r)]
+        except StopIteration:
+            o["kind"] = 6
         except ValueError:
             o["kind"] = 1
         except KeyError:
@@ -939,7 +1029,7 @@ def oracle(case, obs):
         return None
 
     has_ctx_item = any(x.startswith("ctx.") for x in items)
-    KIND = {0: "returned", 1: "ValueError", 2: "KeyError", 3: "IndexError", 5: "the loader's exception"}
+    KIND = {0: "returned", 1: "ValueError", 2: "KeyError", 3: "IndexError", 5: "the loader's exception", 6: "StopIteration"}
 
     def judge(steps, kind, res, what):
         """steps: what loading the indices one after the other must do (access_steps); -> (message | None, samples that
@@ -985,11 +1075,68 @@ def oracle(case, obs):
             return f"{what}: a loader's exception although no loader of these samples raises", None
         return None, done
 
+    per_sample_log = [c for c in planned_calls(items, groups) if is_named(c)]
+    cursor = {}        # reference semantics of iterator objects: id -> index of the next sample, None = finished
     for t, (acc, o) in enumerate(zip(case["hist"], obs["hist"])):
         what = f"access #{t} {acc}"
-        ref = ref_indices(n, acc)
         if o["kind"] == 9:
             return f"{what}: raised {o.get('exc')}"
+        if acc["k"] in ("iter", "len", "next", "rest"):
+            # iterator objects are first-class: every iter(mw) is a NEW iterator over samples 0..len-1 owning its own
+            # position; next() of one advances only that one; indexing / len / other iterators in between change nothing;
+            # an iterator that raised or was exhausted stays finished; iter(it) is it (list(it) / for-loops resume)
+            if acc["k"] == "iter":
+                cursor[acc["id"]] = 0
+                if o["kind"] != 0:
+                    return f"{what}: iter(ModeWrapper) raised ({KIND.get(o['kind'], o['kind'])})"
+                continue
+            if acc["k"] == "len":
+                if o["kind"] != 0 or o.get("len") != n:
+                    return f"{what}: len(ModeWrapper) = {o.get('len')} (kind {o['kind']}), len(dataset) = {n}"
+                continue
+            p = cursor.get(acc["id"])
+            if acc["k"] == "next":
+                if p is None or p >= n:
+                    cursor[acc["id"]] = None
+                    if o["kind"] != 6:
+                        return (f"{what}: the iterator is finished (it yielded all {n} samples, raised, or was never created): "
+                                f"StopIteration expected, got {KIND.get(o['kind'], o['kind'])} {o.get('res')}")
+                    continue
+                if o["kind"] == 6:
+                    return (f"{what}: StopIteration although this iterator has yielded only {p} of the {n} samples "
+                            f"(iterators of one ModeWrapper are independent of each other and of indexing in between)")
+                msg, idxs = judge([("s", p)], o["kind"], o.get("res"), what)
+                if msg:
+                    return msg
+                cursor[acc["id"]] = p + 1 if o["kind"] == 0 else None
+                if idxs is None:
+                    continue
+                msg = check_many([p], o["res"], what + f" (sample {p} is due: the {p} samples before it were yielded by "
+                                 f"this iterator)")
+                if msg:
+                    return msg
+                if not is_torch(case) and o["log"] != per_sample_log:
+                    return f"{what}: the stack was asked for {o['log']}; the mode needs, per sample, {per_sample_log}"
+                continue
+            # rest: for s in it / list(it)
+            cursor[acc["id"]] = None
+            due = list(range(p, n)) if p is not None else []
+            if o["kind"] == 6:
+                return f"{what}: StopIteration out of a for-loop over the iterator"
+            msg, idxs = judge([("s", j) for j in due], o["kind"], o.get("res"), what)
+            if msg:
+                return msg
+            if idxs is not None:
+                msg = check_many(due, o["res"], what + f" (the iterator had yielded {p if p is not None else 'all'} samples "
+                                 f"before; the remaining ones are {due})")
+            else:
+                m = len(o["res"])
+                msg = check_many(due[:m], o["res"], what + " (before the exception)") if m <= len(due) else \
+                    f"{what}: {m} samples yielded and then an exception; only {due} were due"
+            if msg:
+                return msg
+            continue
+        ref = ref_indices(n, acc)
         if ref == "ValueError":
             if o["kind"] != 1:
                 return f"{what}: slice step 0 must raise ValueError"
@@ -1163,6 +1310,18 @@ def cres(e, nitems, rc):
     return C("RItems", o)
 
 
+def cop(acc):
+    if acc["k"] == "iter":
+        return C("OpIter", Nat(acc["id"]))
+    if acc["k"] == "next":
+        return C("OpNext", Nat(acc["id"]))
+    if acc["k"] == "rest":
+        return C("OpRest", Nat(acc["id"]))
+    if acc["k"] == "len":
+        return Raw("OpLen")
+    return C("OpGet", cindex(acc))
+
+
 def cindex(acc):
     if acc["k"] == "int":
         return C("IInt", acc["i"])
@@ -1195,7 +1354,7 @@ def coq_applicable(case, obs):
     for o in obs["hist"]:
         if o["kind"] == 9:
             return False
-        if o["kind"] == 0 and not _samples_ok(o["res"], nitems, case["rc"]):
+        if o.get("res") and not _samples_ok(o["res"], nitems, case["rc"]):
             return False
     if obs["iter"]["kind"] == 9:
         return False
@@ -1223,10 +1382,11 @@ def coq_case(case, obs):
     hist = []
     if obs["init"] == 0:
         for acc, o in zip(case["hist"], obs["hist"]):
-            hist.append(Rec(h_idx=cindex(acc), h_kind=Nat(o["kind"]), h_many=bool(o.get("many", False)),
-                            h_res=[cres(e, nitems, rc) for e in o.get("res", [])] if o["kind"] == 0 else [],
+            keep = o["kind"] == 0 or acc["k"] == "rest"     # a for-loop keeps what it was given before an exception
+            hist.append(Rec(h_op=cop(acc), h_kind=Nat(o["kind"]), h_many=bool(o.get("many", False)),
+                            h_res=[cres(e, nitems, rc) for e in o.get("res", [])] if keep else [],
                             h_log=Raw("None") if is_torch(case) or o["kind"] != 0
-                            else Opt([cstr(s) for s in o["log"]])))
+                            else Opt([cstr(s) for s in o["log"]]), h_len=o.get("len", 0)))
     helpers = []
     for h, o in zip(case.get("helpers", []), obs["helpers"]):
         b = h["batch"]
@@ -1265,10 +1425,10 @@ def coq_case(case, obs):
 # ---------------------------------------------------------------------------
 # generation
 # ---------------------------------------------------------------------------
-def gen_writes(rng):
+def gen_writes(rng, keys=KEYS):
     out = []
     for _ in range(rng.choice([0, 0, 0, 1, 1, 2])):
-        out.append([rng.choice(KEYS), rng.random() < 0.35])
+        out.append([rng.choice(keys), rng.random() < 0.35])
     return out
 
 
@@ -1307,6 +1467,58 @@ def gen_access(rng, n):
             "s": rng.choice([None, None, 1, 1, 2, 3, -1, -1, -2, -3, n + 1, -n - 1, 0])}
 
 
+def gen_iter_episode(rng, n):
+    """iterator objects as first-class steps: 1-3 iterators of the same ModeWrapper alive at once; next() calls on them
+    interleaved with each other, with len() and (through weave) with indexing; iterators exhausted, asked again after
+    StopIteration, re-created under the same name while another one is half-way, consumed to the end by a for-loop
+    after a few next() calls (peek, then list(it)); the textbook shapes zip(mw, mw) and nested loops included"""
+    r = rng.random()
+    ops = []
+    if r < 0.2:
+        # zip(mw, mw): two iterators advanced alternately until the first StopIteration
+        ops = [{"k": "iter", "id": 0}, {"k": "iter", "id": 1}]
+        for _ in range(min(n, 4) + 1):
+            ops += [{"k": "next", "id": 0}, {"k": "next", "id": 1}]
+        return ops
+    if r < 0.35:
+        # for a in mw: for b in mw: ...
+        ops = [{"k": "iter", "id": 0}]
+        for _ in range(min(n, 3) + 1):
+            ops += [{"k": "next", "id": 0}, {"k": "iter", "id": 1}, {"k": "rest", "id": 1}]
+        return ops
+    if r < 0.5:
+        # peek at the first sample(s), then consume the rest
+        ops = [{"k": "iter", "id": 0}] + [{"k": "next", "id": 0} for _ in range(rng.choice([1, 1, 2, 3]))] + [{"k": "rest", "id": 0}]
+        if rng.random() < 0.5:
+            ops += [{"k": rng.choice(["next", "rest"]), "id": 0}]
+        return ops
+    ids = list(range(rng.choice([1, 2, 2, 3])))
+    ops = [{"k": "iter", "id": i} for i in ids[:rng.randint(1, len(ids))]]
+    for _ in range(rng.randint(2, 2 * n + 5)):
+        q = rng.random()
+        i = rng.choice(ids)
+        if q < 0.68:
+            ops.append({"k": "next", "id": i})
+        elif q < 0.8:
+            ops.append({"k": "iter", "id": i})
+        elif q < 0.9:
+            ops.append({"k": "rest", "id": i})
+        else:
+            ops.append({"k": "len"})
+    return ops
+
+
+def weave(rng, a, b):
+    """a random interleaving of the two step lists (each keeps its order)"""
+    a, b, out = list(a), list(b), []
+    while a or b:
+        if a and (not b or rng.random() < len(a) / (len(a) + len(b))):
+            out.append(a.pop(0))
+        else:
+            out.append(b.pop(0))
+    return out
+
+
 def gen_helper(rng):
     its = [rng.choice(POOL + ["index"]) for _ in range(rng.choice([1, 1, 2, 3, 4]))]
     if rng.random() < 0.1:
@@ -1335,7 +1547,11 @@ def gen_case(rng, big=False, dl_p=0.07):
     size = rng.choice([0, 1, 2, 3, 3, 4, 5, 6] + ([8, 11] if big else []))
     torch_root = rng.random() < 0.08
     rnames = rng.sample(POOL, rng.randint(2, 5))
-    root = {"items": {s: ([] if torch_root else gen_writes(rng)) for s in rnames}}
+    keys = gen_key_pool(rng)
+    root = {"items": {s: ([] if torch_root else gen_writes(rng, keys)) for s in rnames}}
+    if not torch_root and keys != KEYS and rng.random() < 0.6:
+        # one loader records several related keys at once: a truncated / extended name exists in the same ctx
+        root["items"][rng.choice(rnames)] = [[k, False] for k in rng.sample(keys, min(len(keys), rng.choice([2, 2, 3])))]
     if torch_root:
         root["kind"] = "torch"
     fused_stack = rng.random() < 0.5
@@ -1354,10 +1570,10 @@ def gen_case(rng, big=False, dl_p=0.07):
         impl = {}
         for s in have:
             if rng.random() < (0.85 if (fused_stack and last) else 0.4):
-                impl[s] = gen_writes(rng)
+                impl[s] = gen_writes(rng, keys)
         if rng.random() < 0.3:
             nm = f"n{level}"
-            impl[nm] = gen_writes(rng)
+            impl[nm] = gen_writes(rng, keys)
         L = {"t": "wrap", "impl": impl, "fused": [], "joint": {}, "req": rng.random() < 0.12}
         for s in impl:
             if s not in have:
@@ -1407,11 +1623,14 @@ def gen_case(rng, big=False, dl_p=0.07):
     recorded = set()
 
     def note(s):
-        # plain (index-independent) keys some layer records when loading s: candidates for a later ctx.<key>
+        # keys some layer records when loading s: candidates for a later ctx.<key> (index-dependent ones: the key of
+        # one sample -- the others end in KeyError)
         for ws in [case["root"]["items"].get(s, [])] + [Lr["impl"].get(s, []) for Lr in layers if Lr["t"] == "wrap"]:
             for key, per in ws:
                 if not per:
                     recorded.add(key)
+                elif rng.random() < 0.15:
+                    recorded.add(wkey(key, True, rng.randrange(max(size, 1))))
     for s0 in items:
         note(s0)
     while len(items) < ln:
@@ -1421,8 +1640,11 @@ def gen_case(rng, big=False, dl_p=0.07):
         elif r < 0.27:
             if recorded and rng.random() < 0.8:
                 items.append("ctx." + rng.choice(sorted(recorded)))
+            elif rng.random() < 0.6:
+                items.append("ctx." + rng.choice(keys))
             else:
-                items.append("ctx." + rng.choice(KEYS))
+                # a relative of a recorded key that may or may not be recorded itself
+                items.append("ctx." + rng.choice(key_family(rng.choice(sorted(recorded) or keys))))
         elif r < 0.29:
             items.append(rng.choice(["", "w", "indexx", "ctx."] + ["".join(g) for g in groups]))
         elif r < 0.32:
@@ -1442,6 +1664,8 @@ def gen_case(rng, big=False, dl_p=0.07):
     case["rc"] = rng.random() < 0.5
     n = outer_len(case)
     case["hist"] = [gen_access(rng, n) for _ in range(rng.randint(1, 6))]
+    if rng.random() < 0.4:
+        case["hist"] = weave(rng, case["hist"], gen_iter_episode(rng, n))
     case["helpers"] = [gen_helper(rng) for _ in range(rng.choice([0, 0, 1, 2, 3]))]
     case["torch"] = [gen_torch(rng) for _ in range(rng.choice([0, 0, 0, 1, 2]))]
     # marker attributes defined at random layers (shadowing included): ModeWrapper.__getattr__ delegation
@@ -1550,6 +1774,41 @@ def directed_cases():
                         stamp=rc)
                 c["raises"] = rs
                 out.append(c)
+    # ctx keys from the whole alphabet: every base name together with relatives that a wrong key computation would
+    # confuse it with, recorded by the SAME loader with different values; every one of them requested
+    for base in KEY_BASES:
+        fam = key_family(base)
+        for lo in range(0, len(fam), 4):
+            ks = [base] + [k for k in fam[lo:lo + 4] if k != base]
+            kroot = {"x": [[k, False] for k in ks], "class": [[ks[-1], True]]}
+            md = " ".join(["x"] + ["ctx." + k for k in ks] + ["index"])
+            out.append(_mk(2, kroot, [], md, lo % 8 == 0, hist[:2]))
+    # iterator objects: zip(mw, mw), nested loops, a second iter() while the first is half-way, peek + list(it),
+    # next() after exhaustion, indexing / len between the next() calls
+    def I(i):
+        return {"k": "iter", "id": i}
+
+    def N(i):
+        return {"k": "next", "id": i}
+
+    def R(i):
+        return {"k": "rest", "id": i}
+    eps = [[I(0), I(1), N(0), N(1), N(0), N(1), N(0), N(1), N(0), N(1)],
+           [I(0), N(0), I(1), R(1), N(0), I(1), R(1), N(0), I(1), R(1), N(0)],
+           [I(0), N(0), N(0), I(1), N(1), N(0), N(1), N(1), N(1), N(0)],
+           [I(0), N(0), R(0), N(0), R(0)],
+           [I(0), N(0), {"k": "int", "i": 2}, {"k": "len"}, N(0), {"k": "slice", "a": None, "b": None, "s": -1}, N(0), N(0), N(0)],
+           [I(0), N(0), I(0), N(0), R(0), I(0), R(0)],
+           [N(3), R(3), I(0), R(0), I(0), R(0)]]
+    for md, lay in (("x index", []), ("class x ctx.k", [fused_layer([["x", "class"]])]), ("index", [{"t": "sub", "indices": [2, 0, 1]}]),
+                    ("x ctx.m.1", [])):
+        for ep in eps:
+            for rc in (False, True):
+                out.append(_mk(3, root, lay, md, rc, ep, stamp=rc and bool(lay) and lay[0]["t"] == "wrap"))
+    c = _mk(3, root, [fused_layer([])], "x class", True, eps[0] + eps[3])
+    c["raises"] = [[0, "class", 1]]
+    out.append(c)
+    out.append(_mk(0, root, [], "x", False, eps[0][:6] + eps[3]))
     # real DataLoader, every batch size, with / without ctx, over a subset (the __getitems__ of torch Subset must not be used)
     plain = {"x": [["k", False]], "class": [], "semseg": []}
     for md in ("x", "index", "x class index", "index x x", "class ctx.k x"):
@@ -1649,7 +1908,9 @@ def features(case, obs):
             yield "idx:above-range"
         if acc.get("ty") == "np":
             yield "idx:numpy-int"
-        if acc["k"] == "int":
+        if acc["k"] in ("iter", "next", "rest", "len"):
+            yield "step:" + acc["k"]
+        elif acc["k"] == "int":
             yield "idx:negative" if acc["i"] < 0 else "idx:int"
         elif acc["k"] == "slice":
             yield "idx:slice" + ("-neg-step" if (acc["s"] or 1) < 0 else "")
@@ -1657,6 +1918,34 @@ def features(case, obs):
             yield "idx:list"
     for o in obs.get("hist", []):
         yield "access-kind=%d" % o["kind"]
+    live = {}
+    for acc in case["hist"]:
+        if acc["k"] == "iter":
+            if any(v for i, v in live.items() if i != acc["id"]):
+                yield "iter:created-while-another-is-half-way"
+            live[acc["id"]] = 0
+        elif acc["k"] == "next":
+            if acc["id"] in live:
+                live[acc["id"]] += 1
+                if sum(1 for v in live.values() if v) > 1:
+                    yield "iter:two-iterators-advanced"
+        elif acc["k"] == "rest":
+            if live.get(acc["id"]):
+                yield "iter:for-loop-over-partially-consumed"
+            live.pop(acc["id"], None)
+    for s_ in its:
+        if s_.startswith("ctx."):
+            key = s_[4:]
+            if key[:1] in ("c", "t", "x", "."):
+                yield "ctxkey:starts-with-ctx.-letter"
+            if "." in key:
+                yield "ctxkey:dotted"
+            if key in POOL or key == "index":
+                yield "ctxkey:equals-item-name"
+    allk = {wk for ws in list(case["root"]["items"].values()) + [w for L in case["layers"] if L["t"] == "wrap" for w in L["impl"].values()]
+            for wk, _ in ws}
+    if any(a != b and (a.endswith(b) or a.startswith(b)) for a in allk for b in allk if b):
+        yield "ctxkeys:one-is-prefix/suffix-of-another"
     for nm, ix in obs.get("plan", []):
         if isinstance(ix, list):
             yield "fired-group"
